@@ -3,6 +3,7 @@
 mod common;
 use affinitree::linalg::affine::{AffFunc, Polytope};
 use affinitree::pwl::afftree::AffTree;
+use affinitree::pwl::iter::PolyhedraGen;
 use common::*;
 use affinitree::pwl::node::NodeState;
 use std::panic::AssertUnwindSafe;
@@ -218,11 +219,86 @@ fn one_case_upd(r: &mut Rng, id: usize, out: &mut String) {
     out.push_str(&format!("(case {} regions_upd {} (script {}) {})\n", id, before, script.join(" "), items));
 }
 
+/// Third case kind: the traversal is started at an inner node, `PolyhedraGen::with_root(&tree, r)` with r != root
+/// (decision or terminal, also off the left-most child chain, also deep).  The first next() pushes the half-spaces of
+/// the edge that enters r, depth counts from r, so the predicate stack holds depth+1 polytopes; the pop count
+/// 1 + last_depth - depth must still fit.  Ids of this kind are 1_000_000 + i and the randomness comes from a separate
+/// stream, so the cases of the other kinds are what they were before this kind was added.
+/// (case id regions_sub TREE r (script N | S ...) (stream ...))
+fn one_case_sub(r: &mut Rng, id: usize, out: &mut String) {
+    // a tree with at least one non-root node
+    // (four cases in five ask for at least five nodes, so that the start node usually has a branching subtree)
+    let want = if r.chance(1, 5) { 2 } else { 5 };
+    let mut drawn = gen_case_tree(r);
+    let mut tries = 0;
+    while drawn.0.len() < want && tries < 50 {
+        drawn = gen_case_tree(r);
+        tries += 1;
+    }
+    let (t, _n, _wide) = drawn;
+    let root = t.tree.get_root_idx();
+    let others: Vec<usize> = t.tree.node_indices().filter(|i| *i != root).collect();
+    // two cases in three start at a non-root decision that has two children (if there is one)
+    let forks: Vec<usize> = others.iter().copied().filter(|i| t.tree.num_children(*i) >= 2).collect();
+    let start = if others.is_empty() {
+        root
+    } else if !forks.is_empty() && r.chance(2, 3) {
+        forks[r.below(forks.len())]
+    } else {
+        others[r.below(others.len())]
+    };
+    // size of the subtree of the start node (walked over the child links, not through the library's iterators)
+    let mut sub = 0usize;
+    let mut todo = vec![start];
+    while let Some(i) = todo.pop() {
+        sub += 1;
+        if let Ok(nd) = t.tree.tree_node(i) {
+            for (_, c) in nd.children_iter() {
+                todo.push(c);
+            }
+        }
+    }
+    let len = sub + 2 + r.below(sub + 1);
+    let skip_pct = [0u32, 0, 10, 25, 40][r.below(5)];
+    let mut script: Vec<bool> = Vec::new(); // true = Next
+    for _ in 0..len {
+        script.push(!r.chance(skip_pct, 100));
+    }
+    let mut items = String::from("(stream");
+    let res = catch(AssertUnwindSafe(|| {
+        let mut s = String::new();
+        let mut g = PolyhedraGen::with_root(&t.tree, start);
+        for c in &script {
+            if *c {
+                match g.next(&t.tree) {
+                    Some((data, polys)) => {
+                        s.push_str(&format!(" (item {} {} {} {})", data.depth, data.index, data.n_remaining, sx_polys(polys)));
+                    }
+                    None => s.push_str(" end"),
+                }
+            } else {
+                g.skip_subtree();
+                s.push_str(" skip");
+            }
+        }
+        s
+    }));
+    match res {
+        Ok(s) => items.push_str(&s),
+        Err(_) => items.push_str(" panic"),
+    }
+    items.push(')');
+    let sc: Vec<&str> = script.iter().map(|c| if *c { "N" } else { "S" }).collect();
+    out.push_str(&format!("(case {} regions_sub {} {} (script {}) {})\n", id, sx_tree(&t), start, sc.join(" "), items));
+}
+
 fn main() {
     silence_panics();
     let argv: Vec<String> = std::env::args().collect();
     let args = &parse_args(&argv[1..]);
     let mut r = Rng::new(args.seed ^ 0xC09);
+    // separate stream for the sub-tree kind (ids 1_000_000 + i, one per five ordinary ids)
+    let mut rs = Rng::new(args.seed ^ 0xC09_5B);
     let mut out = String::new();
     for id in 0..args.n {
         let mut cr = r.fork();
@@ -230,6 +306,11 @@ fn main() {
             guard(id, &mut out, |out| one_case_upd(&mut cr, id, out));
         } else {
             guard(id, &mut out, |out| one_case(&mut cr, id, out));
+        }
+        if id % 5 == 2 {
+            let mut cs = rs.fork();
+            let sid = 1_000_000 + id;
+            guard(sid, &mut out, |out| one_case_sub(&mut cs, sid, out));
         }
     }
     print!("{}", out);
